@@ -65,6 +65,7 @@ type decoded struct {
 	dump  string // Info(all:1) text
 	group string // grouping + StartPos (file level) / type:size (box level)
 	repro bool   // re-encoding (box tree mode) reproduces the input exactly
+	val   interface{} // the decoded structure itself (structural comparison of the two decodings)
 }
 
 func infoText(i interface {
@@ -87,7 +88,7 @@ func describeFile(data []byte, sr bool, flags mp4.DecFileFlags) decoded {
 	if p != "" || err != nil {
 		return decoded{p: p}
 	}
-	d := decoded{ok: true, dump: infoText(f), group: fileObs(f) + "|top=" + topObs(f)}
+	d := decoded{ok: true, dump: infoText(f), group: fileObs(f) + "|top=" + topObs(f), val: f}
 	g, _, _ := decFile(data, sr, flags)
 	g.FragEncMode = mp4.EncModeBoxTree
 	var b bytes.Buffer
@@ -146,6 +147,8 @@ func agreeFails(site string, a, b decoded, an, bn string) []string {
 			fails = append(fails, fmt.Sprintf("FAIL\t%s\tdump-differs\t%s vs %s structure dumps differ", site, xn, yn))
 		case x.group != y.group:
 			fails = append(fails, fmt.Sprintf("FAIL\t%s\tgrouping-differs\t%s: %s / %s: %s", site, xn, x.group, yn, y.group))
+		case deepDiff(x.val, y.val) != "":
+			fails = append(fails, fmt.Sprintf("FAIL\t%s\tstructure-differs\t%s vs %s: decoded structures differ at %s", site, xn, yn, deepDiff(x.val, y.val)))
 		case !y.repro:
 			fails = append(fails, fmt.Sprintf("FAIL\t%s\treencoding-differs\t%s reproduces the input on re-encoding, the structure decoded by %s does not", site, xn, yn))
 		}
@@ -206,7 +209,7 @@ func describeBox(data []byte, sr bool) decoded {
 	}
 	var sb strings.Builder
 	dumpBox3(b, &sb)
-	d := decoded{ok: true, dump: infoText(b), group: sb.String()}
+	d := decoded{ok: true, dump: infoText(b), group: sb.String(), val: b}
 	c, _, _ := decBox(data, sr)
 	var buf bytes.Buffer
 	if guard(func() { err = c.Encode(&buf) }) == "" && err == nil && bytes.Equal(buf.Bytes(), data) {
